@@ -57,7 +57,7 @@ var (
 		"", " ", "\n", "\r\n", "%", "%%", "a\u0301", "\u0301", "\U0001F1E9\U0001F1EA\U0001F1FA", "\u1100\u1161\u11a8", "\ufeff"}
 	// format
 	HostileFormats = []string{"%[99999999999999999999]d", "%[18446744073709551617]v", "%[9223372036854775813]d", "%[18446744073709551615]v", "%5[9223372036854775808]s", "%[2]s", "%!", "%.", "%5", "%[1", "%[]d", "%[0]d", "%*d", "%-010.3[1]q", "%z",
-		"%#x", "%v%v%v%v", "%.0s", "%5.f", "%+ -0#v", "%[1]v%[1]v", "%s%[1]s", "%.9999f", "%9999d", "%\u00e9", "%1$d"}
+		"%#x", "%v%v%v%v", "%.0s", "%5.f", "%+ -0#v", "%[1]v%[1]v", "%s%[1]s", "%.9999f", "%9999d", "%\u00e9", "%1$d", "\u0301%v", "\u0338%s-%s", "\u0323\u0301%d"}
 	// regexp
 	HostileRegexps = []string{"(", ")", "[", "(?P<x>a)(b)", "(?P<x>a)(?P<x>b)", "a{1000}", "a{1001}", `\C`, "(?P<\u00e9>a)", "(((((((((((a)))))))))))", `\`, "(?P<>a)", "a**",
 		"(?P<a>.)(?P<b>.)?", "(x)?", "()", "(?:a)", "(?P<A>a)|(?P<B>b)", "\\pN", "[[:alpha:]]"}
